@@ -412,9 +412,13 @@ def monitor(c, run, K, stop_first=True, stats=None):
         elif it[0] == "F": states.append(("final", [], it[1], len(run["events"]) - 1))
     prev = None; prevobj = None; sum0 = None; nsmo = 0; amax = 1.0; hscale = 1.0; shrink_on = bool(run["shrink"]); edge_ok = shrink_on
     nfinal = 0; finals = []
+    has_setinit = any(m[0] == "I" for m in c.get("muts", []))
     for idx, (name, args, s, ev) in enumerate(states):
         msgs = []
         if name == "pre": nsmo = max(nsmo, int(args[0]))
+        if name == "smo": nsmo += 1
+        sparse_final = name == "final" and c.get("tag") == "LRUN"      # unrecorded updateSMO calls may precede the end of a sparse run
+        if sparse_final and run["ends"]: nsmo = max(nsmo, run["ends"][0][1])
         # ---- what a mutator of the object history does to the DATA of the problem (by original index)
         if name == "setlin" and prev is not None: lin0[prev.perm[int(args[0])]] = pfl(args[1])
         if name == "scale":
@@ -442,7 +446,7 @@ def monitor(c, run, K, stop_first=True, stats=None):
             amax = max(amax, max(abs(v) for v in s.alpha))
             asum = sum(abs(v) for v in s.alpha)
             tol = 32 * EPSM * (nsmo + 8) * scale + 2 * kd * asum
-            if c["matrix"].startswith("cf") and (c["warm"] or "setinit" in stats.get("_muts", ())): tol += 2.0 ** -22 * scale   # setInitialSolution multiplies in float for a float cache
+            if c["matrix"].startswith("cf") and (c["warm"] or has_setinit): tol += 2.0 ** -22 * scale   # setInitialSolution multiplies in float for a float cache
             for a in range(s.active):
                 if not abs(s.grad[a] - g[a]) <= tol:
                     msgs.append(("grad", "gradient[%d]=%r but linear - K alpha = %r (|diff| %.3g > tol %.3g), active=%d" % (a, s.grad[a], g[a], abs(s.grad[a] - g[a]), tol, s.active))); break
@@ -458,13 +462,13 @@ def monitor(c, run, K, stop_first=True, stats=None):
             if c["kind"] == "svm" and not abs(sm - sum0) <= 8 * EPSM * (nsmo + 4) * n * amax:
                 msgs.append(("sum", "sum(alpha)=%r differs from the initial %r" % (sm, sum0)))
             otol = 64 * EPSM * (nsmo + 8) * max(1.0, scale * asum) + 4 * kd * asum * asum
-            if c["matrix"].startswith("cf") and (c["warm"] or "setinit" in stats.get("_muts", ())): otol += 2.0 ** -22 * scale * asum
+            if c["matrix"].startswith("cf") and (c["warm"] or has_setinit): otol += 2.0 ** -22 * scale * asum
             if s.active == n and not abs(s.fval - obj) <= otol:
                 msgs.append(("fval", "functionValue()=%r but recomputed objective %r" % (s.fval, obj)))
             if prev is not None:
                 po = dict(zip(prev.perm, prev.alpha)); so = dict(zip(s.perm, s.alpha))
                 if name == "smo":
-                    i, j = int(args[0]), int(args[1]); nsmo += 1
+                    i, j = int(args[0]), int(args[1])
                     if not (i < prev.active and j < prev.active): msgs.append(("ws", "working set (%d,%d) not inside the active set %d" % (i, j, prev.active)))
                     for a in range(n):
                         if a != i and a != j and s.alpha[a] != prev.alpha[a]:
@@ -477,7 +481,7 @@ def monitor(c, run, K, stop_first=True, stats=None):
                             if det <= 1e-12 and (K[pi][pi] > 0 or K[pj][pj] > 0): key = "box2d:tiny-det-fallback"
                         elif c["kind"] == "box" and 0 < K[prev.perm[i]][prev.perm[i]] < 1e-12: key = "edge1d:tiny-Q"
                         msgs.append((key, "dual objective decreased in SMO step (%d,%d): %r -> %r (drop %.6g, tol %.3g)" % (i, j, prevobj, obj, prevobj - obj, otol)))
-                elif name == "pre":
+                elif name == "pre" or sparse_final:
                     # sparse recording: only updateSMO calls lie between the previous recorded state and this one
                     if prevobj is not None and not (obj >= prevobj - otol):
                         msgs.append(("objective-decrease", "dual objective decreased between two recorded states (updateSMO calls only): %r -> %r (drop %.6g, tol %.3g)" % (prevobj, obj, prevobj - obj, otol)))
@@ -526,9 +530,7 @@ def monitor(c, run, K, stop_first=True, stats=None):
                             kv = true_kkt(c, s, g)
                             if not kv <= c["eps"] + 2 * tol:
                                 msgs.append(("end-kkt", "solver reports accuracy %r < eps but the KKT violation with the true gradient lin - K alpha is %r" % (e[3], kv)))
-            prevobj = None if name == "setlin" else obj
-            if name in MUTATORS: prevobj = obj if name not in ("setlin",) else obj
-        elif name == "smo": nsmo += 1
+            prevobj = obj
         for k, m in msgs: bad.append((ev, k, "%s [event %d: %s %s]" % (m, ev, name, " ".join(args[:6]))))
         if bad and stop_first: break
         if msgs: break          # later states are not meaningful once an invariant is broken
@@ -568,7 +570,7 @@ def compare_run(run, mlines, n):
         if raw[2:] == ml[2:]: continue
         a = raw.split(); b = ml.split()
         if len(a) != len(b) or a[1] != b[1]: dis.append((ev, "line shapes differ")); continue
-        k = NARGS[name]; base = 2 + k
+        k = nargs(name, n); base = 2 + k
         if name == "kkt" and a[2] != b[2] and pfl(a[2]) != pfl(b[2]):
             dis.append((ev, "checkKKT value: implementation %s model %s" % (a[2], b[2])))
         if name == "smo" and a[2:4] != b[2:4]: dis.append((ev, "indices differ"))
@@ -601,20 +603,43 @@ def execute(ck, exe, model, cfgs, tmpd, tag):
     byid = {r["id"]: r for r in runs}
     rc2, mout, merr = sh([model, tf], timeout=1500)
     if rc2 != 0: raise RuntimeError("model driver failed: " + merr[-2000:])
-    mruns = {}; cur = None
+    mruns = {}; rruns = {}; cur = None; curr = None
     for l in mout.split("\n"):
-        if l.startswith("RUN "): cur = []; mruns[l.split()[1]] = cur
+        if l.startswith("RUN "): cur = []; curr = []; mruns[l.split()[1]] = cur; rruns[l.split()[1]] = curr
         elif l.startswith("M ") and cur is not None: cur.append(l)
+        elif l.startswith("R ") and curr is not None: curr.append(l)
     res = []
     for c in cfgs:
         r = byid.get(c["id"])
         if r is None or (r["end"] is None and r["exc"] is None):
             res.append((c, r, [], [(-1, "crash", "implementation crashed/stopped (rc=%s) in run %s: %s" % (rc, c["id"], err.strip()[-300:]))])); continue
         K = indep_kernel(c)
-        mon = monitor(c, r, K)
+        r["stats"] = {}
+        mon = monitor(c, r, K, stats=r["stats"])
         dis = compare_run(r, mruns.get(c["id"], []), c["n"]) if not r["exc"] else []
+        if not r["exc"]: dis += reshrink_tie(r, rruns.get(c["id"], []), c["n"])
         res.append((c, r, dis, mon))
     return res
+
+def reshrink_tie(run, rlines, n):
+    """the extracted composite C08Reshrink.reshrink (unshrink; recompute the KKT bounds; shrink again) next to the recorded
+    shrink events: whenever the branch is due in the state before the call, the active-set size and the permutation after the
+    call must be exactly the composite's.  Also counts the events at which the composite WITHOUT the recomputation
+    (reshrink_stale) would remove a different set of variables."""
+    dis = []; st = run["stats"]
+    sh_ev = [k for k, e in enumerate(run["events"]) if e[0] == "shrink"]
+    if len(rlines) != len(sh_ev): return [(-1, "model produced %d reshrink lines for %d shrink events" % (len(rlines), len(sh_ev)))]
+    for k, rl in zip(sh_ev, rlines):
+        t = rl.split()
+        if t[1] != "1": continue
+        s = run["events"][k][2]
+        act = int(t[2]); perm = [int(v) for v in t[3:3 + n]]
+        sact = int(t[4 + n]); sperm = [int(v) for v in t[5 + n:5 + 2 * n]]
+        st["reshrink_tied"] = st.get("reshrink_tied", 0) + 1
+        if set(perm[:act]) != set(sperm[:sact]): st["stale_differs"] = st.get("stale_differs", 0) + 1
+        if act != s.active or perm != s.perm:
+            dis.append((k, "reshrink composite (unshrink; recompute bounds; shrink): implementation leaves %d active variables %s.., model %d %s.." % (s.active, s.perm[:8], act, perm[:8])))
+    return dis
 
 def first_failure(ck, exe, model, c, tmpd, want_key=None):
     res = execute(ck, exe, model, [c], tmpd, "shrink")
@@ -633,15 +658,30 @@ def minimise(ck, exe, model, c, tmpd, is_mon, key):
     ev = f[1][0]
     if ev >= 0:
         nsmo = sum(1 for e in f[2]["events"][:ev + 1] if e[0] == "smo")
+        if ev in f[2]["pre"]: nsmo = f[2]["pre"][ev][0]         # sparse recording: the count is carried by the pre-state line
         c2 = dict(c); c2["maxiter"] = max(1, nsmo)
         if fails(c2): c = c2
+    if c.get("tag") == "HIST" and len(c["muts"]) > 1:           # fewer mutator calls
+        km = ddmin(list(range(len(c["muts"]))), lambda k: len(k) >= 1 and fails(dict(c, muts=[c["muts"][i] for i in k])), max_runs=24)
+        c2 = dict(c, muts=[c["muts"][i] for i in km])
+        if len(km) < len(c["muts"]) and fails(c2): c = c2
     idx = list(range(c["n"]))
     def sub(keep):
         c2 = dict(c); c2["n"] = len(keep); c2["x"] = [c["x"][i] for i in keep]; c2["y"] = [c["y"][i] for i in keep]
         if c.get("warm"): c2["a0"] = [c["a0"][i] for i in keep]
         c2["cachesize"] = max(c["cachesize"], 2 * len(keep))
+        if c.get("tag") == "HIST":                               # mutators address variables by their original index
+            new = {p: k for k, p in enumerate(keep)}; ms = []
+            for m in c["muts"]:
+                if m[0] in ("L", "A"):
+                    if m[1] in new: ms.append((m[0], new[m[1]]) + tuple(m[2:]))
+                elif m[0] == "X":
+                    if m[1] in new and m[2] in new: ms.append(("X", new[m[1]], new[m[2]]))
+                elif m[0] == "I": ms.append(("I", [m[1][i] for i in keep]))
+                else: ms.append(m)
+            c2["muts"] = ms
         return c2
-    keep = ddmin(idx, lambda k: len(k) >= 2 and fails(sub(k)), max_runs=40)
+    keep = ddmin(idx, lambda k: len(k) >= 2 and fails(sub(k)), max_runs=12 if c["stream"] == "long" else 40)
     if len(keep) < c["n"] and fails(sub(keep)): c = sub(keep)
     return c
 
@@ -685,13 +725,25 @@ def main():
                         c = parse_run_line(l); c["id"] = "corpus_" + c["id"]; cfgs.append(c)
         for k in range(4000 if big else 600): cfgs.append(gen_run(ck.rng, "m%d" % k, big))
         for k in range(200 if big else 20): cfgs.append(gen_run(ck.rng, "x%d" % k, big, extreme=True))
+        for k in range(1200 if big else 160): cfgs.append(gen_hist(ck.rng, "h%d" % k, big))
+        for k in range(60 if big else 12): cfgs.append(gen_long(ck.rng, "l%d" % k, big))
     res = []
-    for p in range(0, len(cfgs), 100):
-        res += execute(ck, exe, model, cfgs[p:p + 100], tmpd, "b%d" % (p // 100))
+    short = [c for c in cfgs if c["stream"] != "long"]; longs = [c for c in cfgs if c["stream"] == "long"]
+    for p in range(0, len(short), 100):
+        res += execute(ck, exe, model, short[p:p + 100], tmpd, "b%d" % (p // 100))
+    for p in range(0, len(longs), 6):
+        res += execute(ck, exe, model, longs[p:p + 6], tmpd, "l%d" % (p // 6))
     nev = 0; nmon = 0; ndis = 0; evk = {}; branch = {"clip": 0, "free": 0, "noop": 0}; hyp_bad = 0; shrunk_events = 0; unshr = 0
     reported = set(); dis_runs = []; allkeys = {}
+    agg = {}            # per stream: counters of the shrink-event monitor / reshrink tie / object history
     for c, r, dis, mon in res:
         if r is not None:
+            a = agg.setdefault(c["stream"], {})
+            for k, v in r.get("stats", {}).items(): a[k] = a.get(k, 0) + v
+            a["runs"] = a.get("runs", 0) + 1; a["smo_steps"] = a.get("smo_steps", 0) + sum(e[1] for e in r["ends"])
+            if c["stream"] == "hist":
+                a["mutator_events"] = a.get("mutator_events", 0) + sum(1 for e in r["events"] if e[0] in MUTATORS)
+                if len(r["ends"]) >= 2: a["second_solves"] = a.get("second_solves", 0) + 1
             nev += len(r["events"])
             prev = r["s0"]
             for name, args, s, raw in r["events"]:
@@ -730,8 +782,23 @@ def main():
         if not found:
             c, dis = dis_runs[0]
             report(ck, exe, model, c, tmpd, False, None, dis[0][1], no_input=True)
-    ck.oblige("one-step correspondence C08Model.step (float-instantiated) vs real solver on %d events of %d runs" % (nev, len(res)), ndis == 0 and True,
+    ck.oblige("one-step correspondence C08Model.step / C08Mutators.mstep / C08Reshrink.reshrink (float-instantiated) vs real solver on %d events of %d runs" % (nev, len(res)), ndis == 0 and True,
               "" if not ndis else "%d runs with disagreements" % ndis)
+    tot = lambda k: sum(a.get(k, 0) for a in agg.values())
+    unsound = sum(v for k, v in allkeys.items() if k[0] == "shrink-unsound")
+    ck.oblige("shrink-event monitor: %d shrink() calls observed, %d of them removed variables (%d removals); every removed variable is at a bound and has no feasible "
+              "first-order ascent direction with the true gradient" % (tot("shrink_calls"), tot("shrink_removing"), tot("removed")), unsound == 0, "" if not unsound else "%d runs with an improvable removal" % unsound)
+    if not ck.replay:
+        lg = agg.get("long", {})
+        ck.oblige("long stream reaches the un-shrink-inside-shrink branch of shrink(): %d events in %d runs (%d SMO steps); at %d of them the re-activated variables move the KKT bounds, "
+                  "at %d the composite WITHOUT the recomputation (reshrink_stale) would remove a different set; reshrink composite tied on %d events (all streams)"
+                  % (lg.get("inside", 0), lg.get("runs", 0), lg.get("smo_steps", 0), lg.get("inside_moved", 0), lg.get("stale_differs", 0), tot("reshrink_tied")),
+                  lg.get("inside", 0) > 0 and lg.get("stale_differs", 0) > 0, "the generated long runs no longer reach the branch" if not lg.get("inside", 0) else "")
+        hs = agg.get("hist", {})
+        ck.oblige("object-history stage: %d reused problem objects, %d mutator calls, %d second solves (%d shrink() calls removing variables in hist runs), %d optima compared with a fresh object"
+                  % (hs.get("runs", 0), hs.get("mutator_events", 0), hs.get("second_solves", 0), hs.get("shrink_removing", 0), hs.get("fresh_compared", 0)),
+                  hs.get("mutator_events", 0) > 0 and hs.get("second_solves", 0) > 0 and hs.get("fresh_compared", 0) > 0)
+    ck.notes["stream_counters"] = agg
     ck.cov["evaluations"] = nev
     ck.cov["distinct_nontrivial"] = len(set(run_line(c).split(" ", 2)[2] for c, r, _, _ in res if r is not None and len(r["events"]) >= 3))
     ck.cov["rule"] = ("real QpSolver runs (SvmShrinkingProblem / BoxConstrainedShrinkingProblem over CSVMProblem; selection MVP/LibSVM/HMG resp. MaximumGain/MaximumGradient/WS2; "
@@ -744,7 +811,7 @@ def main():
     ck.notes["monitor_failures_by_key"] = {":".join(k): v for k, v in allkeys.items()}; log("monitor failures by key: %s" % ck.notes["monitor_failures_by_key"]); ck.notes["event_mix"] = evk; ck.notes["smo_branches"] = branch
     ck.notes["svm_steps_with_gi_lt_gj(hypothesis of smo_gain_nonneg not met)"] = hyp_bad
     ck.notes["shrink_events_that_removed_variables"] = shrunk_events; ck.notes["unshrink_events_that_restored_variables"] = unshr
-    ck.notes["streams"] = {"main": sum(1 for c in cfgs if c["stream"] == "main"), "extreme": sum(1 for c in cfgs if c["stream"] == "extreme")}
+    ck.notes["streams"] = {k: sum(1 for c in cfgs if c["stream"] == k) for k in ("main", "extreme", "hist", "long")}
     ck.finish()
 
 if __name__ == "__main__":
